@@ -115,6 +115,16 @@ def run(ctx, sess):
             k = '%s:%s' % (fn.name, field)
             hdrp = tuple(p[:-1]) if p is not None else None
             mine = [c for c in ctors if c.fn is fn and hdrp is not None and tuple(c.hdr) == hdrp]
+            if not mine and fn.name in chunks.ctor_helpers(P):
+                sites = [c for c in ctors if c.helper == fn.name]
+                late = None
+                for c in sites:
+                    for w in c.wr_calls:
+                        late = late or find_path(c.fn, w, lambda e2, facts, c=c: 'target' if e2 is c.offset_store else None, refine=False)
+                ctx.ob('C14.3', bool(sites) and late is None, fn.name, 'store to %s' % field, ev.where(),
+                       'in a constructor helper that each of its %d callers invokes before jls_raw_wr' % len(sites) if (sites and late is None) else
+                       'the constructor helper runs after the chunk was written (or has no constructing caller)', late.render() if late else None)
+                continue
             if not mine:
                 if k in exc:
                     ctx.note('exception %s: %s' % (k, exc[k]))
@@ -341,6 +351,12 @@ def _written_offset_value(fn, at_ev, a):
         return False, '%s not written before' % p
     if a.get('op') == 'ref' and a.get('rk') == 'local':
         defs, _ = df.reaching_defs(fn, a['name'], at_ev.block, at_ev.idx)
+        # a copy of X.offset of a chunk that is written before the use
+        if defs:
+            rhss = [strip_casts(d.e if d.k == 'decl' else d.store_parts()[1]) for d in defs if (d.e if d.k == 'decl' else d.store_parts()[1]) is not None]
+            ps = [fn.path(r) for r in rhss]
+            if len(rhss) == len(defs) and all(p_ is not None and p_.last_field() == 'offset' for p_ in ps):
+                return _written_offset_value(fn, at_ev, rhss[0]) if len(set(str(p_) for p_ in ps)) == 1 else (False, 'several chunk objects')
         if defs and all(any(n.get('op') == 'call' and n.get('callee') == 'jls_raw_chunk_tell' for n in walk(d.store_parts()[1] or {})) for d in defs):
             # a jls_raw_wr lies between the tell and the use
             for c in fn.calls('jls_raw_wr'):
